@@ -59,7 +59,8 @@ def correspondence(ctx, tag="corr_weekday"):
             reqs.append("%s.repr %s" % (op, a)); exp.append(run(lambda: repr(w), hexs))
             reqs.append("%s.hash %s" % (op, a)); exp.append("ok " + hashed_tuple(w))
             n = rng.choice(NS + [w.n, w.n])
-            reqs.append("%s.call %s %s" % (op, a, oint(n)))
+            # self.__class__ is the receiver's class: rrule.weekday builds the new object with ITS constructor (n == 0 rejected)
+            reqs.append("%s.%s %s %s" % (op, "callrr" if type(w) is rrule.weekday else "call", a, oint(n)))
             exp.append(run(lambda: w(n), lambda r: "%s %d" % (wd_wire(r), 1 if r is w else 0)))
             o = rng.choice(objs) if rng.random() < 0.5 else weekday(w.weekday, rng.choice([w.n, w.n, None, 0, 1]))
             reqs.append("%s.eq %s w %s" % (op, a, wd_wire(o))); exp.append("ok %d %d" % (w == o, w != o))
